@@ -132,7 +132,7 @@ def run(ck):
                       '(the property excludes those instants; in the lock-step runs SystemExit is raised right BEFORE the store / lock call)']
     b = X.Batch(ck)
     b.run(X.sanity_scenario(), ORACLES)
-    systematic(ck, b, ck.n(14, 150), ck.n(2, 1))
+    systematic(ck, b, ck.n(14, 120), ck.n(2, 1))
     real_hooks(ck, b, ck.n(40, 600))
     random_stops(ck, b, ck.n(40, 1500))
     # real `jug execute` processes on a file store, real SIGTERM / SIGINT (the only tier that goes through ExecuteCommand.run,
